@@ -329,9 +329,12 @@ def _run_comm_thread(case, v):
         if 'fut' in box:
             fut = box['fut']
             for _ in range(4):
-                if fut.done() and isinstance(fut.result(), kiwipy.Future):
+                if fut.done() and not fut.cancelled() and fut.exception() is None and isinstance(fut.result(), kiwipy.Future):
                     fut = fut.result()
                     loop.drain()
+            if fut.done() and (fut.cancelled() or fut.exception() is not None):
+                v('wrong-outcome', f"the reply to the {case['what']} message is {'cancelled' if fut.cancelled() else repr(fut.exception())[:200]}")
+                return
             want = 'reply' if case['what'] == 'rpc' else 'done'
             if not fut.done() or fut.result() != want:
                 v('wrong-outcome', f"reply {(fut.result() if fut.done() else 'pending')!r}, expected {want!r}")
